@@ -6,7 +6,15 @@ them, re-lints the result and fixes a second time.  Here:
   * predicate on the implementation alone: no cap/deadline hit, no error on a lintable set, no violation of an enabled
     fixable rule left (unless a conflict was reported), second fix changes nothing;
   * correspondence: Model/FixLoop.v [pass] (one iteration: skip logic, text fixes of Model/Fixes.v, formatter and
-    rename results tabulated from the real fixes) must lead from the files of iteration k to those of iteration k+1.
+    rename results tabulated from the real fixes) must lead from the files of iteration k to those of iteration k+1;
+    in rename mode the numbered name is the model's own (C13's rename_candidate iterated on the name tried last), and every
+    fp.Rename request the provider saw is compared with Model/FixLoop.v [rename_loop] (number of rounds, every name asked);
+  * file sets with k-way collisions of moves (2-4 files of one base name and package, candidate names already taken) under
+    BOTH conflict modes; a candidate loop that does not end is cut by a cap on Rename requests = non-termination;
+  * directory-package-mismatch, rule (Rego) vs fix (Go) as two implementations of "the directory a package belongs in":
+    generated package paths (_test in every position, quoted components, names the fix refuses) x exclude-test-suffix x
+    placements; predicate on the observations alone (the fix's target is accepted by the rule, "in place" only where the rule
+    is silent, the fix leaves its own target alone) and correspondence with Model/DpmAgree.v; plus end-to-end file sets.
   * the command itself (both tiers): `regal fix --force` of the REAL BINARY on a few file sets that exercise the disk phase
     of cmd/fix.go (moves into directories emptied by the same run, swapped directories, chains, a move plus content
     fixes): exit status 0, the tree on disk is what Fixer.Fix computed in memory, `regal lint` of the resulting tree
@@ -133,6 +141,11 @@ def disk_scenarios(ctx):
         {'name': 'disk-swap-plus-content-fixes', 'rules': ALL_RULES, 'mode': 'error', 'files': {
             '/ws/p/a.rego': 'package q\n\nx = 1 #c\n\nallow if {\n\tregex.match("[0-9]+", input.x)\n}\n',
             '/ws/q/sub/b.rego': 'package p\n\n#comment\ny  =  "a=b"\n\nz = 2 if   input.y\n'}},
+        # package paths whose _test component is not the last one (and one where it is): rule and fix must agree on the place
+        {'name': 'disk-package-paths-with-test-suffix', 'rules': ['dpm'], 'mode': 'error', 'files': {
+            '/ws/helpers.rego': 'package authz_test.helpers\n\nallow if input.x == 1\n',
+            '/ws/x/policy_test.rego': 'package authz.policy_test\n\ntest_allow if true\n',
+            '/ws/authz/other/util.rego': 'package authz_test.other\n\nu := 1\n'}},
     ]
     pool = ['alpha', 'beta/one', 'gamma', 'delta/x/y', 'eps', 'zeta/inner']
     bodies = ['allow if input.x == %d\n', 'x = %d #c\n', 'r%d  :=  "a=b"\n\ndeny contains m if m := "x"\n',
@@ -307,6 +320,55 @@ def files_plain_bytes(fs):
     return {f['path']: base64.b64decode(f['content']) for f in fs or []}
 
 
+def dpm_predicate(d):
+    """directory-package-mismatch, rule vs fix, on the observations of one package path alone (no model):
+    list of (kind, detail)"""
+    out = []
+    places = d.get('places') or []
+    by_file = {p_['file']: p_ for p_ in places}
+    for p_ in places:
+        if p_['rule'] < 0:
+            out.append(('dpm-rule-evaluation-failed', {'place': p_}))
+            continue
+        if p_['fix'] == 'none' and p_['rule'] != 0:
+            out.append(('dpm-reported-but-fix-finds-it-in-place', {'place': p_, 'what': 'the rule reports the file, the fix answers "file is where '
+                        'it should be": the violation can never be fixed'}))
+        if p_['fix'] == 'move':
+            t = by_file.get(p_['to'])
+            if t is None:
+                out.append(('dpm-fix-target-outside-workspace', {'place': p_}))
+            elif t['rule'] != 0:
+                out.append(('dpm-fix-target-rejected-by-rule', {'place': p_, 'target': t, 'what': 'the fix moves the file to a directory where '
+                            'the rule still reports it'}))
+            elif t['fix'] != 'none':
+                out.append(('dpm-fix-moves-its-own-target', {'place': p_, 'target': t}))
+        if p_['fix'] == 'error' and 'can only handle' not in (p_.get('fix_err') or ''):
+            out.append(('dpm-fix-fails', {'place': p_, 'what': 'the fix fails for another reason than its documented limitation on package names'}))
+    if len({p_['fix'] == 'error' for p_ in places}) > 1:
+        out.append(('dpm-fix-refuses-depending-on-placement', {'places': places}))
+    return out
+
+
+def dpm_case_v(E, d):
+    obs = {'none': 'ObsNone', 'error': 'ObsErr'}
+    pl = clist('{| dp_file := %s; dp_rule := %d%%nat; dp_fix := %s |}' % (
+        E.name(p_['file']), max(p_['rule'], 0), obs.get(p_['fix']) or '(ObsMove %s)' % E.name(p_['to'])) for p_ in d['places'])
+    return '{| d_pkg := %s; d_exclude := %s; d_root := %s; d_places := %s |}' % (
+        clist(E.name(x) for x in d['pkg']), vlib.cbool(d['exclude']), E.name('/ws'), pl)
+
+
+def rename_groups(c):
+    """the fp.Rename requests of one fix, grouped per handleRename: [(iteration, from, [to...], settled)]"""
+    out = []
+    for r_ in c.get('renames') or []:
+        if out and out[-1][0] == r_['iter'] and out[-1][1] == r_['from'] and not out[-1][3]:
+            out[-1][2].append(r_['to'])
+            out[-1][3] = not r_['conflict'] and not r_['err']
+        else:
+            out.append([r_['iter'], r_['from'], [r_['to']], not r_['conflict'] and not r_['err']])
+    return out
+
+
 LONG = {'uao': 'use-assignment-operator', 'nwc': 'no-whitespace-comment', 'nrr': 'non-raw-regex-pattern',
         'fmt': 'opa-fmt', 'v1': 'use-rego-v1', 'dpm': 'directory-package-mismatch'}
 
@@ -332,8 +394,14 @@ def run_harness(ctx, h, replay=None, extra_corpus=None):
 
 
 def run(ctx):
-    import threading
+    import threading, time
+    phases, t_last = {'coq_build_and_props': round(time.time() - ctx.t0, 1)}, [time.time()]
+
+    def phase(name):
+        phases[name] = round(time.time() - t_last[0], 1)
+        t_last[0] = time.time()
     h = vlib.build_harness(ctx, 'c12')
+    phase('harness_build')
     # the real binary on the disk-phase file sets, next to the in-process runs (its verdicts need their results)
     scen = [] if ctx.replay else disk_scenarios(ctx)
     rp = json.load(open(ctx.replay)) if ctx.replay else None
@@ -358,7 +426,9 @@ def run(ctx):
     if scen:
         th.start()
     cases = run_harness(ctx, h, replay=ctx.replay, extra_corpus=None if ctx.replay else scen)
+    phase('harness_run')
     meta = [c for c in cases if c.get('kind') == 'meta']
+    dpm = [c for c in cases if c.get('kind') == 'dpm']
     cases = [c for c in cases if c.get('kind') == 'set']
     sets = [c for c in cases if c.get('lintable')]
     expected_fixes = sorted(RULE)
@@ -384,6 +454,12 @@ def run(ctx):
         vlib.violation(ctx, obj, signature={'kind': kind, 'key': sig_key})
 
     for c in sets:
+        if c['err'] == 'renamecap':
+            asked = [r_['to'] for r_ in (c.get('renames') or [])]
+            report('non-termination', c, None, {'what': 'handleRename (--on-conflict=rename) keeps asking the file provider for renames: cut after the '
+                   'cap on Rename requests; the loop has no other exit and does not look at the context', 'first_requests': asked[:8],
+                   'distinct_names_asked': sorted(set(asked))[:8]})
+            continue
         if c['err'] in ('itercap', 'deadline'):
             report('non-termination', c, None, {'what': 'Fixer.Fix still finds something to fix after %d iterations' % c['iters']})
             continue
@@ -399,6 +475,26 @@ def run(ctx):
                 report('violation-remains', c, rc_, {'violation': v, 'what': 'a violation of an enabled fixable rule is still reported after fix'})
         if c['second_changed'] or c.get('second_err'):
             report('second-fix-changes', c, None, {'what': 'fixing the result again changed it (or failed: %s)' % c.get('second_err', '')})
+
+    # ---- directory-package-mismatch: rule and fix as two implementations, on the observations alone -----------------------
+    dpm_ok = [d for d in dpm if d.get('parses')]
+    dpm_kinds = collections.Counter()
+    for d in dpm_ok:
+        for kind, detail in dpm_predicate(d):
+            dpm_kinds[kind] += 1
+            k = (kind, None)
+            if k in reported or len(reported) >= 5:
+                continue
+            reported.add(k)
+            classes[kind] += 1
+            vlib.violation(ctx, dict({'kind': kind, 'case': d, 'package': d['text'].split('\n')[0], 'exclude_test_suffix': d['exclude']}, **detail),
+                           signature={'kind': kind, 'key': json.dumps([d['pkg'], d['exclude']])})
+    if dpm and not ctx.replay:
+        placed = [p_ for d in dpm_ok for p_ in d['places']]
+        targets = {(d['id'], p_['to']) for d in dpm_ok for p_ in d['places'] if p_['fix'] == 'move'}
+        if len(dpm_ok) < len(dpm) // 2 or not any(p_['rule'] == 1 for p_ in placed) or \
+                not any(p_['rule'] == 0 and (d['id'], p_['file']) in targets for d in dpm_ok for p_ in d['places']):
+            raise RuntimeError('the directory-package-mismatch cases of the harness are vacuous (few parse, or the rule never / always reports)')
 
     # ---- thorough tier: the real binary on the regression file sets (files on disk after regal fix --force) -----
     cli = {'run': 0, 'timeouts': 0, 'diffs': 0}
@@ -416,12 +512,13 @@ def run(ctx):
     if not ctx.quick() and not ctx.replay:
         binary_runs(ctx, [c for c in sets if c['src'].startswith('corpus:') and not c['src'].startswith('corpus:disk-')], cli, report)
 
+    phase('predicates_and_binary_runs')
     # ---- correspondence: one iteration of the model loop per recorded iteration ---------------------------------
     E = Enc()
     iters = []
     owner = []
     for c in sets:
-        if c['err'] in ('itercap', 'deadline'):
+        if c['err'] in ('itercap', 'deadline', 'renamecap'):
             continue
         tr = c.get('trace') or []
         if len(tr) != c['iters']:
@@ -438,6 +535,19 @@ def run(ctx):
                 fs_v(E, st['files']), viol_v(E, st.get('viol') or []), fs_v(E, nxt), vlib.cbool(last), table,
                 vlib.cbool(c['mode'] == 'rename')))
             owner.append((c, k))
+    # every handleRename as the file provider saw it vs Model/FixLoop.v rename_loop with C13's rename_candidate
+    rcases, rowner = [], []
+    for c in sets:
+        if c['err']:
+            continue
+        tr = c.get('trace') or []
+        for it, frm, asked, settled in rename_groups(c):
+            if not (1 <= it <= len(tr)):
+                continue
+            rcases.append('{| r_files := %s; r_rename := %s; r_asked := %s; r_settled := %s |}' % (
+                fs_v(E, tr[it - 1]['files']), vlib.cbool(c['mode'] == 'rename'), clist(E.name(x) for x in asked), vlib.cbool(settled)))
+            rowner.append((c, it, frm, asked))
+    dcases = [dpm_case_v(E, d) for d in dpm_ok]
     # self-test of the comparison: an iteration whose observed successor is perturbed must be flagged
     pert_v = None
     for c in sets:
@@ -449,7 +559,8 @@ def run(ctx):
                 fs_v(E, tr[0]['files']), viol_v(E, tr[0].get('viol') or []), fs_v(E, bad_next), table_v(E, c.get('oracle')),
                 vlib.cbool(c['mode'] == 'rename'))
             break
-    v = ['From Coq Require Import Uint63.', 'From Regal Require Import Check.C12Check.', 'Open Scope N_scope.'] + E.defs
+    head = ['From Coq Require Import Uint63.', 'From Regal Require Import Check.C12Check.', 'Open Scope N_scope.']
+    v = []
     CH = 100
     chunks = []
     for k in range(0, len(iters), CH):
@@ -459,22 +570,64 @@ def run(ctx):
     v.append('Definition R1 := Eval vm_compute in failing iter_agrees 0 iters.')
     v.append('Definition R2 := Eval vm_compute in failing (fun c => negb (iter_unmodelled c)) 0 iters.')
     v.append('Definition R3 := %s.' % ('Eval vm_compute in failing iter_agrees 0 [%s]' % pert_v if pert_v else '[0]%nat'))
-    v.append('Print R1. Print R2. Print R3.')
-    rc, cout = vlib.coq_eval(ctx, 'Cases_C12', '\n'.join(v))
+    for nm, typ, items in (('rcases', 'rename_case', rcases), ('dcases', 'dpm_case', dcases)):
+        parts = []
+        for k in range(0, len(items), CH):
+            v.append('Definition %s_%d : list %s := %s.' % (nm, k // CH, typ, clist(items[k:k + CH])))
+            parts.append('%s_%d' % (nm, k // CH))
+        v.append('Definition %s := %s.' % (nm, ' ++ '.join(parts) if parts else '(@nil %s)' % typ))
+    v.append('Definition R4 := Eval vm_compute in failing rename_agrees 0 rcases.')
+    v.append('Definition R5 := Eval vm_compute in failing dpm_agrees 0 dcases.')
+    # self-tests: a rename that settled one name early / a fix target one directory off must be flagged
+    multi = [x for x in rowner if len(x[3]) >= 2 and x[0]['mode'] == 'rename']
+    if multi:
+        c_, it_, _, asked_ = multi[0]
+        v.append('Definition R6 := Eval vm_compute in failing rename_agrees 0 [{| r_files := %s; r_rename := true; r_asked := %s; r_settled := true |}].'
+                 % (fs_v(E, c_['trace'][it_ - 1]['files']), clist(E.name(x) for x in asked_[:-1])))
+    else:
+        v.append('Definition R6 := [0]%nat.')
+    moved = [(d, p_) for d in dpm_ok for p_ in d['places'] if p_['fix'] == 'move']
+    if moved:
+        d_, p_ = moved[0]
+        bad = json.loads(json.dumps(d_))
+        for q in bad['places']:
+            if q['file'] == p_['file']:
+                q['to'] = '/ws/elsewhere/x.rego'
+        v.append('Definition R7 := Eval vm_compute in failing dpm_agrees 0 [%s].' % dpm_case_v(E, bad))
+    else:
+        v.append('Definition R7 := [0]%nat.')
+    v.append('Print R1. Print R2. Print R3. Print R4. Print R5. Print R6. Print R7.')
+    rc, cout = vlib.coq_eval(ctx, 'Cases_C12', '\n'.join(head + E.defs + v))   # E.defs last: the self-tests name new strings
     if rc != 0:
         raise RuntimeError('case evaluation failed:\n' + cout[-3000:])
+    phase('coq_eval')
     r1 = vlib.parse_nat_list(cout, 'R1')
     r2 = vlib.parse_nat_list(cout, 'R2')
     if r1 is None or r2 is None:
         raise RuntimeError('could not read the results of the case evaluation:\n' + cout[-2000:])
     if vlib.parse_nat_list(cout, 'R3') != [0]:
         raise RuntimeError('self-test failed: a perturbed successor state was not flagged by Check.C12Check.iter_agrees')
+    r4, r5 = vlib.parse_nat_list(cout, 'R4'), vlib.parse_nat_list(cout, 'R5')
+    if r4 is None or r5 is None:
+        raise RuntimeError('could not read the results of the case evaluation:\n' + cout[-2000:])
+    if vlib.parse_nat_list(cout, 'R6') != [0] or vlib.parse_nat_list(cout, 'R7') != [0]:
+        raise RuntimeError('self-test failed: a rename settled one candidate early / a fix target elsewhere was not flagged by Check.C12Check')
     if r1 and not ctx.violations:
         c, k = owner[r1[0]]
         vlib.violation(ctx, {'kind': 'correspondence', 'relation': 'Check.C12Check.iter_agrees (Model/FixLoop.v pass vs one iteration of applyLinterFixes)',
                              'iteration': k, 'files_before': files_plain(c['trace'][k]['files']), 'violations': c['trace'][k].get('viol'),
                              'files_after': files_plain(c['final'] if k == len(c['trace']) - 1 else c['trace'][k + 1]['files']),
                              'case': c, 'n_mismatches': len(r1)}, no_input=True)
+    if r4 and not ctx.violations:
+        c, it, frm, asked = rowner[r4[0]]
+        vlib.violation(ctx, {'kind': 'correspondence', 'relation': 'Check.C12Check.rename_agrees (Model/FixLoop.v rename_loop with Model/Rename.v '
+                             'rename_candidate vs the Rename requests of one handleRename: number of candidate rounds and every name asked for)',
+                             'iteration': it, 'from': frm, 'names_asked': asked, 'files_held': sorted(files_plain(c['trace'][it - 1]['files'])),
+                             'case': c, 'n_mismatches': len(r4)}, no_input=True)
+    if r5 and not ctx.violations:
+        d = dpm_ok[r5[0]]
+        vlib.violation(ctx, {'kind': 'correspondence', 'relation': 'Check.C12Check.dpm_agrees (Model/DpmAgree.v rule_reports / fix_answer_of vs the real '
+                             'rule body and the real DirectoryPackageMismatch.Fix)', 'case': d, 'n_mismatches': len(r5)}, no_input=True)
     proof_gate(ctx)
 
     nontrivial = [c for c in sets if c['iters'] > 1]
@@ -493,11 +646,22 @@ def run(ctx):
         'rule_subsets': dict(hist), 'modes': dict(collections.Counter(c['mode'] for c in sets)),
         'errors': dict(collections.Counter(c['err'] or 'none' for c in sets)),
         'mismatch_model_iteration': len(r1), 'predicate_failures': dict(classes), 'binary_runs': cli,
+        'file_set_sources': dict(collections.Counter(c['src'].split(':')[0] for c in sets)),
+        'rename_requests': {'handle_rename_calls_compared_with_model': len(rcases), 'mismatch_model_rename': len(r4),
+                            'candidate_rounds_histogram': dict(collections.Counter(str(len(x[3]) - 1) for x in rowner if x[0]['mode'] == 'rename')),
+                            'conflict_modes': dict(collections.Counter(x[0]['mode'] for x in rowner))},
+        'dpm_rule_vs_fix': {'package_paths_x_setting': len(dpm), 'parsed': len(dpm_ok), 'placements': sum(len(d['places']) for d in dpm_ok),
+                            'compared_with_model': len(dcases), 'mismatch_model_dpm': len(r5), 'predicate_failures': dict(dpm_kinds),
+                            'fix_answers': dict(collections.Counter(p_['fix'] for d in dpm_ok for p_ in d['places'])),
+                            'rule_reports': dict(collections.Counter(str(p_['rule']) for d in dpm_ok for p_ in d['places'])),
+                            'paths_with_inner_test_component': sum(1 for d in dpm_ok if any(x.endswith('_test') for x in d['pkg'][:-1])),
+                            'samples': [{'package': d['text'].split('\n')[0], 'exclude_test_suffix': d['exclude'],
+                                         'places': [[p_['file'], p_['rule'], p_['fix'], p_.get('to', '')] for p_ in d['places'][:4]]} for d in dpm_ok[5:7]]},
         'disk_phase_file_sets': [{'name': sc['name'], 'files': sorted(sc['files']), 'rules': sc['rules'], 'mode': sc['mode'],
                                   'after_fix': sorted(disk[sc['name']]['after_fix'][0]) if sc['name'] in disk else None} for sc in scen],
         'samples': [{'files': files_plain(c['files']), 'rules': c['rules'], 'mode': c['mode'], 'iterations': c['iters'],
                      'result': files_plain(c['final'])} for c in nontrivial[:2]],
-        'exhaustive': False,
+        'phase_seconds': phases, 'exhaustive': False,
     })
     return vlib.finish(ctx, 'proof', cov, [
         'the linter (which violations are reported, at which locations), OPA formatter and directory-package-mismatch are oracles of '
@@ -508,7 +672,10 @@ def run(ctx):
         'reported violation), and unconditionally for use-assignment-operator alone and non-raw-regex-pattern alone; combinations '
         'with the formatter and directory-package-mismatch are covered by the harness only',
         'the order in which the linter returns violations of different files is a permutation argument of the correspondence',
-        'names chosen after a rename conflict (renameCandidate) are not modelled here (C13)',
+        'the name chosen after a rename conflict is computed with C13\'s model of renameCandidate (Model/Rename.v; its correctness against '
+        'pkg/fixer/rename.go is C13\'s correspondence), iterated by this property\'s own model of the loop (Model/FixLoop.v rename_loop)',
+        'directory-package-mismatch: the text of a package path component as the fix reads it (Trim of the quoted form) is modelled as the '
+        'component itself when it matches the fix\'s regular expression, and as refused otherwise; observed on every generated component',
         'regal fix (cmd/fix.go) writes the provider contents to disk after Fixer.Fix returned without error: driven through the '
         'real binary on a handful of file sets per run (disk phase: moves into emptied directories, swaps, chains), and on every '
         'regression file set in the thorough tier; the conservation of files by that phase is C13\'s subject',
